@@ -177,6 +177,39 @@ def program_case(draw):
             "worker": {"tasks_limit": 1}, "jobs": [job], "horizon": 8.0, "stop": "signal"}
 
 
+@st.composite
+def dep_eager_case(draw):
+    """The eager response is given by a dependency of the actor (a guard that settles the message itself)."""
+    action = draw(st.sampled_from(gen.EAGER_ACTIONS))
+    retries = draw(st.integers(0, 2))
+    job = {"id": "p0", "actor": "a_dep", "queue": "q1", "retries": retries, "store_result": draw(st.booleans()),
+           "attempts": [{"k": "depeager", "action": action, "program": [], "sleep": 0.0},
+                        draw(st.sampled_from([{"k": "ret", "v": 1, "sleep": 0.0}, {"k": "depeager", "action": "ack", "program": [], "sleep": 0.0}]))]}
+    if draw(st.integers(0, 2)) == 0:
+        job["attempts"].insert(0, {"k": "raise", "exc": "ValueError", "text": "x", "sleep": 0.0})  # a retried delivery first
+    return gen.finalize({"broker": draw(st.sampled_from(["mem", "mem", "redis", "amqp"])), "seed": draw(st.integers(0, 999)),
+                         "converter": draw(st.sampled_from(["basic", "pydantic"])),
+                         "actors": [{"name": "a_dep", "queue": "q1", "shape": "dep"}], "policy": {"kind": "table", "values": [0.2]},
+                         "worker": {"tasks_limit": 1}, "jobs": [job]})
+
+
+def run_dep_eager(case: dict) -> Outcome:
+    from harness.checks.c02 import check_dispositions
+
+    out = Outcome()
+    try:
+        tr = scenario.run_case(case)
+    except (vclock.StepLimit, vclock.Deadlock) as e:
+        out.inconclusive = True
+        out.info["watchdog"] = str(e)
+        return out
+    # exactly the one terminal action the dependency asked for, the actor body never entered, nothing reported on top of it
+    check_dispositions(out, tr, case)
+    out.nontrivial = any(e.actor == "provider" and e.end == "dep-eager" for e in tr.execs)
+    out.cls("broker-" + case["broker"], "action-" + next(a["action"] for a in case["jobs"][0]["attempts"] if a["k"] == "depeager"))
+    return out
+
+
 def run_program(case: dict) -> Outcome:
     out = Outcome()
     job = case["jobs"][0]
@@ -276,5 +309,6 @@ CHECK = Check(
         SubCheck("handles-redis", _h("redis"), run_handles, quick=40, thorough=1500),
         SubCheck("handles-amqp", _h("amqp"), run_handles, quick=40, thorough=1500),
         SubCheck("programs", program_case, run_program, quick=60, thorough=2500),
+        SubCheck("dependency-eager", dep_eager_case, run_dep_eager, quick=25, thorough=800),
     ],
 )
